@@ -79,6 +79,18 @@ Proof.
 Qed.
 Print Assumptions C16_inject_exact.
 
+(* the same for manifests addressed by update count: over any sequence of refreshes of one session, the
+   i-th request gets the synthetic status iff its update count is the addressed one and the number of earlier
+   addressed requests is not F modulo F+1 (stated through the closed form spec_mrun) *)
+Theorem C16_manifest_inject_exact :
+  forall F code n upds, 0 <= F -> 500 <= code ->
+  manifest_run (Some F) [(code, MNum n)] upds [] = spec_mrun F code n 0 upds.
+Proof.
+  intros F code n upds HF Hc. apply manifest_run_exact; try lia.
+  cbn [sget]. rewrite Z.mod_0_l by lia. reflexivity.
+Qed.
+Print Assumptions C16_manifest_inject_exact.
+
 (* counters are per usage: audio errors never consume video failures, etc. *)
 Theorem C16_counters_independent :
   forall usage fc errs seg s k, fst k <> usage ->
